@@ -399,6 +399,8 @@ def monitors(props, start_snap, start_dump, oplist, leaf, serial_cache):
                     out.append(('c07:noop-traits-put-accepted-with-stale-generation' if noop_t else
                                 'c07:noop-empty-write-accepted-with-stale-generation',
                                 'statuses %s: serializable only without the no-op request(s) %s' % (sts, noop)))
+        if not match and ser0 != 'c07:' and _stale_empty_reshape_entry(oplist, sts, leaf['dump']):
+            match = True        # an ACCEPTED empty entry: a matter of C05 - C07 only (see the no-op case above)
         if not match:
             # classify
             d = leaf['dump']
